@@ -191,3 +191,41 @@ Proof. exact qc_standard_is_curve_tables. Qed.
 Print Assumptions C12_quarter_chord_curve_tables.
 Example C12_tables_nonvacuous : wf_dist (DTab [(0, 2); (0.5, 4); (1, 10)]) /\ wf_dist (DConst 3).
 Proof. cbn. repeat split; lra. Qed.
+
+(* section dihedral of a curve given by quarter-chord points (Model/QCurve.v dihedral_points; Proofs/QPointsP.v): for every chord of the
+   curve that is not degenerate in the y-z plane - outboard, straight up or down, back inboard - and on either side, the angle the code
+   derives is one whose span direction, as the curve integrands and the unswept section vectors use it, is the direction of that chord;
+   the angles of the two halves of a wing are mirror images.  numpy.arctan2 enters through its specification (atan2_spec), which the
+   instance atan2R built from atan satisfies. *)
+From MuxV Require Import Proofs.QPointsP.
+Theorem C12_points_dihedral : forall atan2, atan2_spec atan2 -> forall left_side (p0 p1 : v3 R),
+  let dy := vy p1 - vy p0 in
+  let dz := vz p1 - vz p0 in
+  dy <> 0 \/ dz <> 0 ->
+  span_dir left_side (dihedral_points atan2 left_side p0 p1) = (dy / sqrt (dy * dy + dz * dz), dz / sqrt (dy * dy + dz * dz)).
+Proof. exact dihedral_points_direction. Qed.
+Print Assumptions C12_points_dihedral.
+Theorem C12_points_dihedral_mirror : forall atan2, atan2_spec atan2 -> forall (p0 p1 : v3 R),
+  vy p1 - vy p0 <> 0 \/ vz p1 - vz p0 <> 0 ->
+  let dr := dihedral_points atan2 false p0 p1 in
+  let dl := dihedral_points atan2 true (mirror_y p0) (mirror_y p1) in
+  cos dl = cos dr /\ sin dl = - sin dr.
+Proof. exact dihedral_points_mirror. Qed.
+Print Assumptions C12_points_dihedral_mirror.
+Example C12_points_dihedral_nonvacuous : atan2_spec atan2R /\ (vy (V3 0 0 (-2)) - vy (V3 0 0 0) <> 0 \/ vz (V3 0 0 (-2)) - vz (V3 0 0 0) <> 0).
+Proof. split; [exact atan2R_spec | right; cbn; lra]. Qed.
+
+(* ... and the section sweep derived from the same chord (fix 78b1e1c gave it the per-side sign of a sweep given as an angle): the
+   x-advance of the curve per unit length in the y-z plane that the integrands compute from it - +tan on the left, -tan on the right -
+   is the slope of the chord; the two halves carry opposite angles *)
+Theorem C12_points_sweep : forall (left_side : bool) (p0 p1 : v3 R),
+  let dy := vy p1 - vy p0 in
+  let dz := vz p1 - vz p0 in
+  (if left_side then tan (sweep_points atan (fun x => x * x) left_side p0 p1) else - tan (sweep_points atan (fun x => x * x) left_side p0 p1))
+  = (vx p1 - vx p0) / sqrt (dy * dy + dz * dz).
+Proof. exact sweep_points_direction. Qed.
+Print Assumptions C12_points_sweep.
+Theorem C12_points_sweep_mirror : forall (p0 p1 : v3 R),
+  sweep_points atan (fun x => x * x) true (mirror_y p0) (mirror_y p1) = - sweep_points atan (fun x => x * x) false p0 p1.
+Proof. exact sweep_points_mirror. Qed.
+Print Assumptions C12_points_sweep_mirror.
